@@ -14,7 +14,8 @@ PROPS = ['Props/C08']
 RULE = ('histories of user actions from harness/histgen.py with schema operations and metadata-only paths '
         'over-represented (direct UpdateRecord on _grist_Tables_column colId/type/formula/isFormula/label/'
         'untieColIdFromLabel/widgetOptions/parentPos, _grist_Tables tableId, summary tables, AddReverseColumn, '
-        'undo/redo of every bundle, failing bundles); a user action is non-trivial when it applied at least one '
+        'undo/redo of every bundle, failing bundles, table-level schema actions whose doc action raises half-way (AddTable '
+        'with an unknown column type or an unencodable formula) after successful actions); a user action is non-trivial when it applied at least one '
         'schema doc action or one record action on _grist_Tables/_grist_Tables_column; build_schema cases are real '
         'metadata plus random record sets (duplicate positions, shuffled rows, tables without columns, dangling '
         'reverseCol); the oracle compares Engine.schema with build_schema(metadata) and checks stray columns '
@@ -934,6 +935,7 @@ def search(ctx):
     ctx.violation('uncoupled-doc-action',
                   'doc actions outside every coupled step of the model: %r' % (uncovered[:3],),
                   {'history': history, 'bundle': bundle, 'strict': True})
+  failing_table_stream(ctx, ctx.n(12, 150))
   # (3) record actions applied directly to the metadata tables
   for i in range(ctx.n(4, 60)):
     rng = random.Random(ctx.seed * 104729 + i)
@@ -970,6 +972,64 @@ def search(ctx):
     elif trace:
       ctx.violation('direct-edit-left-trace', '%r was rejected but the document changed: %s'
                     % (a, Gm.diff_snapshots(before[0], Gm.snapshot(e))[:3]), w)
+
+
+def failing_table_action(rng, e):
+  """A table-level schema action whose doc action raises half-way (code generation fails after the schema object was
+  changed): the engine must put the schema back, the rollback the metadata."""
+  from harness import histgen
+  m = histgen.Meta(e)
+  names = ['T2', 'Zed', 'New table', 'Foo']
+  bad_cols = [
+    [{'id': 'A', 'type': 'Zork', 'isFormula': False}],
+    [{'id': 'A', 'type': 'Int', 'isFormula': False}, {'id': 'B', 'type': 'Zork:T', 'isFormula': False}],
+    [{'id': 'A', 'type': 'Any', 'isFormula': True, 'formula': '"\ud800"'}],
+    [{'id': 'K', 'type': 'Text', 'isFormula': False}, {'id': 'F', 'type': 'Any', 'isFormula': True, 'formula': "'\udfff' + $K"}],
+  ]
+  kind = rng.choice(['addtable', 'addtable', 'addtable', 'emptytable-then-bad', 'dup-then-bad'])
+  if kind == 'addtable' or not m.user_tables():
+    return [['AddTable', rng.choice(names), rng.choice(bad_cols)]]
+  t = rng.choice(m.user_tables())['tableId']
+  if kind == 'emptytable-then-bad':
+    return [['AddEmptyTable', None], ['AddTable', rng.choice(names), rng.choice(bad_cols)]]
+  return [['DuplicateTable', t, rng.choice(names), False], ['AddTable', rng.choice(names), rng.choice(bad_cols)]]
+
+
+def failing_table_stream(ctx, n):
+  """(4) bundles of successful actions followed by a table-level schema action that fails half-way."""
+  Gm = G()
+  for i in range(n):
+    rng = random.Random(ctx.seed * 15485863 + i)
+    gen = make_gen(rng)
+    history = [[gen.gen_addtable(None)]]
+    e = build_doc(history)
+    for _ in range(rng.randint(0, 3)):
+      b = gen.bundle(e)
+      try:
+        Gm.apply(e, copy.deepcopy(b))
+        gen.after_bundle(e)
+        history.append(b)
+      except Exception:
+        Gm.clean(e)
+    if oracle(e):
+      continue
+    prefix = []
+    for _ in range(rng.choice([0, 0, 1, 2])):
+      a = gen.action(e, exclude=('invalid', 'addrec', 'updrec', 'rmrec', 'tempids', 'upsert'))
+      prefix.append(a)
+    bundle = prefix + failing_table_action(rng, e)
+    try:
+      Gm.apply(e, copy.deepcopy(bundle))
+      failed = False
+    except Exception:
+      failed = traceback.format_exc()
+    d = oracle(e)
+    ctx.count(('failing-table', i), nontrivial=bool(failed), kind='failing-table-action:' + ('rolled-back' if failed else 'accepted'))
+    if d:
+      w = {'history': history, 'bundle': bundle}
+      if prefix and replay(ctx, {'history': history, 'bundle': bundle[len(prefix):]}):
+        w = {'history': history, 'bundle': bundle[len(prefix):]}
+      ctx.violation(failure_kind(failed, bundle), d, minimise(ctx, w))
 
 
 class StopHistory(Exception):
